@@ -42,9 +42,16 @@ pub fn run(args: &Args) -> i32 {
         let kb = vnet::keypair(rng.next_u64());
         let kc = vnet::keypair(rng.next_u64());
         // nodes: 0 = dialer A, 1 = target B, 2 = other C, 3 = A' (same key as A)
+        // a quarter of the cases dial with `override_role()` (hole-punching style): the dialer then takes the listener
+        // role in the connection upgrade, so the remotes upgrade every connection in the dialer role
+        let override_role = rng.chance(1, 4);
         for (i, k) in [ka.clone(), kb, kc, ka].into_iter().enumerate() {
             let (p, _) = Probe::new(i as u8);
-            net.add_node(k, move |_, _| p, |c| c.with_idle_connection_timeout(std::time::Duration::from_secs(3600)));
+            if override_role && i > 0 {
+                net.add_node_reversed(k, move |_, _| p, |c| c.with_idle_connection_timeout(std::time::Duration::from_secs(3600)));
+            } else {
+                net.add_node(k, move |_, _| p, |c| c.with_idle_connection_timeout(std::time::Duration::from_secs(3600)));
+            }
             net.swarm(i).listen_on(mem(100 + i as u64)).unwrap();
         }
         let (a, b) = (net.peer(0), net.peer(1));
@@ -81,7 +88,12 @@ pub fn run(args: &Args) -> i32 {
         net.run(rng.range(0, 30), &mut sink);
         for _ in 0..attempts {
             let addr = mem(100 + target_node as u64);
-            let o = if expect_given { DialOpts::peer_id(expected).addresses(vec![addr]).condition(PeerCondition::Always).build() } else { DialOpts::unknown_peer_id().address(addr).build() };
+            let o = match (expect_given, override_role) {
+                (true, false) => DialOpts::peer_id(expected).addresses(vec![addr]).condition(PeerCondition::Always).build(),
+                (true, true) => DialOpts::peer_id(expected).addresses(vec![addr]).condition(PeerCondition::Always).override_role().build(),
+                (false, false) => DialOpts::unknown_peer_id().address(addr).build(),
+                (false, true) => DialOpts::unknown_peer_id().address(addr).override_role().build(),
+            };
             net.swarm(0).dial(o).expect("dial accepted");
             net.touch(0);
             net.run(rng.range(0, 20), &mut sink);
@@ -93,7 +105,7 @@ pub fn run(args: &Args) -> i32 {
         }
         let auth_name = ["expected", "other", "local"][auth_as as usize];
         let exp_name = ["none", "target", "own-peer-id"][expect_kind as usize];
-        let wit = json!({"expected": exp_name, "remote_authenticates_as": auth_name, "attempts": attempts,
+        let wit = json!({"expected": exp_name, "remote_authenticates_as": auth_name, "attempts": attempts, "override_role": override_role,
             "events": events.iter().map(|(i, e)| format!("n{i}:{e}")).collect::<Vec<_>>()});
         let should_establish = obtained != a && (!expect_given || obtained == expected);
         for p in &est_at_dialer {
@@ -134,6 +146,7 @@ pub fn run(args: &Args) -> i32 {
         let sig = Sig::new().u64(expect_kind as u64).u64(auth_as as u64).u64(attempts as u64).u64(net.trace.0).0;
         check.case(sig, true);
         check.count(if should_establish { "cases_established" } else { "cases_rejected" }, 1);
+        check.count("cases_with_override_role", override_role as u64);
         check.distinct("matrix_cells", (expect_kind as u64) * 100 + (auth_as as u64) * 10 + attempts as u64);
         if check.want_sample() && idx % 5 == 0 {
             check.sample(wit);
